@@ -290,6 +290,9 @@ pub enum Call {
     PrivQuery { inner: Box<Call> },
     /// the client's most recent private interpolator goes into the run's mailbox ...
     PrivSend,
+    /// volume: `inner` is issued `times` times in a row; the outcome is the first one that differs
+    /// from the first outcome, else the last one (counters that wrap, thresholds, tables that fill up)
+    Repeat { inner: Box<Call>, times: u32 },
     /// ... and whoever executes this takes the oldest one out and drops it - on a thread that did
     /// not build it, while interpolators that thread built itself are alive
     PrivReap,
@@ -320,6 +323,7 @@ impl Call {
             Call::PrivQuery { .. } => "private_query",
             Call::PrivSend => "private_send",
             Call::PrivReap => "private_reap",
+            Call::Repeat { .. } => "repeat",
         }
     }
     /// number of query elements (= strategy callbacks if nothing fails)
@@ -327,7 +331,7 @@ impl Call {
         match self {
             Call::Scalar { .. } | Call::Interp { .. } | Call::InterpInto { .. } => 1,
             Call::Array { q } | Call::ArrayInto { q, .. } => q.xs.len(),
-            Call::PrivQuery { inner } => inner.batch_len(),
+            Call::PrivQuery { inner } | Call::Repeat { inner, .. } => inner.batch_len(),
             _ => 0,
         }
     }
@@ -343,7 +347,14 @@ pub enum Act {
     /// was handed (a user strategy may do that: every query method takes `&self`); `write_first` =
     /// the callback fills its own target before the nested call (a target that is really a shared
     /// scratch row is then clobbered by the nested call), otherwise afterwards
-    Nest { call: Box<Call>, write_first: bool },
+    Nest {
+        call: Box<Call>,
+        write_first: bool,
+        /// fault plan of the NESTED call's own callbacks (errors / panics; no further nesting): a
+        /// nested call that fails must not change what the outer call returns
+        #[serde(default, skip_serializing_if = "Vec::is_empty")]
+        plan: Vec<Act>,
+    },
 }
 
 #[derive(Serialize, Deserialize, Clone, Debug, PartialEq)]
@@ -491,6 +502,9 @@ pub struct Nested {
     /// index of the outer callback that made the call
     pub at: u32,
     pub call: Call,
+    /// fault plan the nested call ran with
+    #[serde(default, skip_serializing_if = "Vec::is_empty")]
+    pub plan: Vec<Act>,
     pub out: Outcome,
 }
 
